@@ -96,13 +96,13 @@ def expected_clashes(residues, opts):
     return out, flat
 
 
-def check_find_clashes(residues, tag=""):
+def check_find_clashes(residues, tag="", options=None):
     from rnapolis.clashfinder import find_clashes
 
     out = []
     total = 0
     sums = set()
-    for opts in OPTIONS:
+    for opts in (options or OPTIONS):
         exp, flat = expected_clashes(residues, opts)
         index = {id(a): k for k, (_, a) in enumerate(flat)}
         got = find_clashes(residues, *opts)
@@ -253,6 +253,26 @@ def oracle_synthetic(case):
     return ds
 
 
+def oracle_assembly(case):
+    """k translated, non-touching copies of a corpus structure assembled through the API (chains renamed per copy): an
+    input of ribosome / capsid size, where batching, block-wise processing and size limits inside the search act"""
+    import numpy as np
+    from rnapolis.tertiary import Structure3D
+    from rnaverif import gen3d
+
+    s3 = corpus.structure(case["file"])
+    P = np.array([[a.x, a.y, a.z] for r in s3.residues for a in r.atoms])
+    step = float(P[:, 0].max() - P[:, 0].min()) + 10.0
+    residues = []
+    for c in range(case["copies"]):
+        part = gen3d.rebuild(s3, point_fn=lambda xyz, ri, k, c=c: xyz + np.array([c * step, 0.0, 0.0]),
+                             chain_map={ch: f"{ch}{c}" for ch in {r.chain for r in s3.residues}})
+        residues += list(part.residues)
+    ds, total, sums = check_find_clashes(residues, options=[tuple(o) for o in case["opts"]])
+    case["_info"] = {"clashes": total, "sums": len(sums), "atoms": sum(len(r.atoms) for r in residues)}
+    return ds
+
+
 def oracle_file(case):
     s3 = corpus.structure(case["file"], 1) if False else corpus.structure(case["file"])
     ds, total, sums = check_find_clashes(s3.residues)
@@ -394,6 +414,8 @@ def oracle_cli(case):
 def oracle(case):
     if case.get("kind") == "cli":
         return oracle_cli(case)
+    if case.get("kind") == "assembly":
+        return oracle_assembly(case)
     if "file" in case:
         return oracle_file(case)
     return oracle_synthetic(case)
@@ -425,10 +447,15 @@ def plan(tier, seed):
         specs = [{"kind": "files", "files": [f]} for f in corpus.SMALL[:6] + ["488d.pdb"]]
         specs += [{"kind": "synthetic", "examples": 200, "seed": seed * 1000 + k} for k in range(12)]
         specs += [{"kind": "cli", "examples": 40, "seed": seed * 1000 + 100 + k} for k in range(4)]
+        specs += [{"kind": "assembly", "file": "6g90_1.cif", "copies": 8, "opts": [[True, True, False, False, True]]},
+                  {"kind": "assembly", "file": "6g90_1.cif", "copies": 8, "opts": [[True, False, False, False, True]]}]
     else:
         specs = [{"kind": "files", "files": [f]} for f in corpus.all_files()]
         specs += [{"kind": "synthetic", "examples": 4000, "seed": seed * 1000 + k} for k in range(16)]
         specs += [{"kind": "cli", "examples": 800, "seed": seed * 1000 + 100 + k} for k in range(8)]
+        big = [[io, ia, False, sn, mp] for io in (True, False) for ia in (True, False) for sn in (True, False) for mp in (True, False)]
+        specs += [{"kind": "assembly", "file": "6g90_1.cif", "copies": 12, "opts": [o]} for o in big]
+        specs += [{"kind": "assembly", "file": "4qln.cif", "copies": 20, "opts": [o]} for o in big[:4]]
     return specs
 
 
@@ -444,6 +471,12 @@ def run_shard(spec) -> ShardResult:
             check_case(PROP_ID, oracle, case, res, to_json=to_json)
             nt, labs = classify(case)
             res.note_case({"file": f, **case.get("_info", {})}, nt, labs)
+    elif spec["kind"] == "assembly":
+        if spec["file"] in corpus.all_files():
+            case = {"kind": "assembly", "file": spec["file"], "copies": spec["copies"], "opts": spec["opts"]}
+            check_case(PROP_ID, oracle, case, res, to_json=to_json)
+            info = case.get("_info", {})
+            res.note_case({**to_json(case), **info}, info.get("clashes", 0) >= 3, ["assembly-of-translated-copies", f"atoms={info.get('atoms', 0) // 10000 * 10000}+"])
     elif spec["kind"] == "synthetic":
         run_hypothesis(PROP_ID, st_cases(), oracle, seed=spec["seed"], max_examples=spec["examples"], result=res,
                        to_json=to_json, classify=classify, sample_cap=1)
